@@ -288,6 +288,11 @@ def flatten_extends(
 
         c = flatten_extends(c, extends.class_modification, parent=c.parent)
 
+        if c.type == "__builtin":
+            # Also when the elementary type is inherited indirectly (a type
+            # definition of a type definition)
+            extended_orig_class.type = c.type
+
         # Imports are not inherited (spec 3.5 sections 5.3.1 and 7.1)
         # extended_orig_class.imports.update(c.imports)
         extended_orig_class.classes.update(c.classes)
